@@ -149,6 +149,30 @@ pub fn draw_capacities(r: &mut Rng, medium: &[u8], storage: bool, default_pct: u
     (buf_cap, msg_max)
 }
 
+/// One reader call through either of the two public entry points: `read_message`, or
+/// `next_message_slice` followed by the caller's own `dlt_message` on the slice. Which one is a
+/// function of the call index and the medium (replayable); a reader that keeps something between
+/// calls behaves differently when the two are mixed.
+pub fn via_slice(call: usize, medium_len: usize) -> bool {
+    (call + medium_len) % 3 == 0
+}
+pub fn reader_call<S: std::io::Read>(
+    reader: &mut dlt_core::read::DltMessageReader<S>,
+    filter: Option<&dlt_core::filtering::ProcessedDltFilterConfig>,
+    slice_api: bool,
+) -> Result<Option<dlt_core::parse::ParsedMessage>, dlt_core::parse::DltParseError> {
+    if !slice_api {
+        return dlt_core::read::read_message(reader, filter);
+    }
+    let sh = reader.with_storage_header();
+    let slice = reader.next_message_slice()?;
+    if slice.is_empty() {
+        Ok(None)
+    } else {
+        Ok(Some(dlt_core::parse::dlt_message(slice, filter, sh)?.1))
+    }
+}
+
 pub fn draw_filter(r: &mut Rng, alphabet: usize, pct: usize) -> Option<FilterSpec> {
     if r.chance(pct, 100) {
         Some(FilterSpec::draw(r, alphabet))
